@@ -122,6 +122,11 @@ def run(e: Engine, rep: Report):
              'other entries that were taken off the timetable are never '
              'looked at again)')
     r412(e, rep)
+    from . import c02 as _c02
+    common.reuse(e, rep, _c02.r26, 'R4.13',
+                 '= C02-R2.6: enqueue() returns after the storage write it '
+                 'acknowledges has finished (it joins the greenlet that '
+                 'writes, not a helper that only starts it)', only={'R2.6'})
     rep.floor('R4.1', 6, 'file-system write sites / ordering obligations')
 
 
